@@ -169,7 +169,13 @@ func checkJSONDoc(c jsonCase) *vk.Failure {
 		return vk.Failf("unmarshal-panics", "json.Unmarshal into %s of %s: %v %s", name, b, r.Outcome, r.Text)
 	}
 	if collide {
-		// nothing is documented about attribute names equal to the reserved keys
+		// Nothing is documented about which value wins for an attribute named like
+		// one of the reserved keys (the JSON object has one member of that name),
+		// so the decoded document is not judged; but encoding must not change the
+		// value being encoded.
+		if pristine := c.build(); !reflect.DeepEqual(v, pristine) {
+			return vk.Failf("marshal-mutates-reserved-attribute", "json.Marshal changed the %s value it encoded (an Attributes entry named like a reserved key is gone or replaced): now %+v, was %+v", name, v, pristine)
+		}
 		return nil
 	}
 	if err != nil {
